@@ -140,8 +140,8 @@ CHECKS["C17"] = dict(
 
 CHECKS["C09"] = dict(
     text="PARTIAL. Proved about the adapters' glue under an explicit contract of each HTTP library: method, target, headers and exact body reach the library (curl with its length); status, Content-Type and body come back unchanged for every status 100..599 and every body through all four adapters, "
-         "hence an OAuth error reply is classified exactly as through an in-memory client; a connection fault is an error value. Not modelled: sockets, framing, hangs, library internals. "
-         "Correspondence = a scripted TCP server on 127.0.0.1 driving the four real adapters: bytes on the wire and the returned response/error over statuses x Content-Types x bodies x framings x faults, plus whole exchange_code flows; 10 s watchdog. "
+         "hence an OAuth error reply is classified exactly as through an in-memory client, and a whole device-flow poll session through any adapter (any configuration, clock and sequence of replies and faults) is the session of an in-memory client handed the same replies; a connection fault is an error value. Not modelled: sockets, framing, hangs, library internals. "
+         "Correspondence = a scripted TCP server on 127.0.0.1 driving the four real adapters: bytes on the wire and the returned response/error over statuses x Content-Types x bodies x framings x faults, plus whole exchange_code flows, replies under circumstances that are no faults (non-UTF-8 bytes in unrelated headers, a reason phrase with a colon, a handler that itself calls through the adapter, an earlier refused method); 10 s watchdog, load-induced answers re-run alone. "
          "ureq's chunked-reply-closed-mid-chunk shortened success is a recorded finding.",
     design_ref="5 C09, 7", technique="Coq proof of adapter glue under stated library contracts + loopback differential correspondence (scripted TCP server, four real adapters); known-findings file",
     note="reqwest/hyper, libcurl and ureq are trusted through their contracts in model/Adapters.v; the loopback run is what ties the contracts to the libraries.")
